@@ -1,17 +1,456 @@
 (** Proofs about the abstract file system of C14 (model: Base/FS.v). *)
-From Coq Require Import List NArith Bool Lia.
+From Coq Require Import List Arith NArith Bool Lia.
 From AGH Require Import Base.FS.
 Import ListNotations.
 Local Open Scope N_scope.
 
-(** Non-vacuity of the checker: os.WriteFile-style truncate-and-write. *)
+(** ** Association-list maps *)
+
+Lemma aget_aset {A} (m : amap A) k v x :
+  aget (aset m k v) x = if x =? k then Some v else aget m x.
+Proof.
+  induction m as [|[k' v'] r IH]; cbn.
+  - rewrite (N.eqb_sym k x). reflexivity.
+  - destruct (N.eqb_spec k' k) as [->|Hk]; cbn.
+    + rewrite (N.eqb_sym k x). destruct (x =? k); reflexivity.
+    + rewrite IH. destruct (N.eqb_spec k' x) as [->|Hx]; [|reflexivity].
+      destruct (N.eqb_spec x k); [congruence|reflexivity].
+Qed.
+
+Lemma aget_adel {A} (m : amap A) k x :
+  aget (adel m k) x = if x =? k then None else aget m x.
+Proof.
+  induction m as [|[k' v'] r IH]; cbn.
+  - destruct (x =? k); reflexivity.
+  - destruct (N.eqb_spec k' k) as [->|Hk]; cbn.
+    + rewrite IH. rewrite (N.eqb_sym k x). destruct (x =? k); reflexivity.
+    + rewrite IH. destruct (N.eqb_spec k' x) as [->|Hx]; [|reflexivity].
+      destruct (N.eqb_spec x k); [congruence|reflexivity].
+Qed.
+
+(** ** The linear-time [f_cur] computes its specification *)
+
+Lemma rv_rev l : rv l = rev l.
+Proof. unfold rv. symmetry. apply rev_alt. Qed.
+
+Lemma nlen_app (a b : data) : nlen (a ++ b) = nlen a + nlen b.
+Proof. unfold nlen. rewrite app_length. lia. Qed.
+
+Lemma write_at_end c d : write_at c (nlen c) d = c ++ d.
+Proof.
+  unfold write_at, pad_to, nlen. rewrite Nat2N.id, Nat.sub_diag. cbn [repeat].
+  rewrite app_nil_r, firstn_all, skipn_all2 by lia. now rewrite app_nil_r.
+Qed.
+
+Lemma fold_r_inv ps c0 :
+  let st := fold_right (fun p st => apply_pop_r st p) (rv c0, nlen c0) ps in
+  let c := fold_right (fun p c => apply_pop c p) c0 ps in
+  fst st = rv c /\ snd st = nlen c.
+Proof.
+  induction ps as [|p ps IH]; cbn zeta in *; cbn [fold_right]; [split; reflexivity|].
+  destruct IH as [H1 H2].
+  set (st := fold_right (fun p st => apply_pop_r st p) (rv c0, nlen c0) ps) in *.
+  set (c := fold_right (fun p c => apply_pop c p) c0 ps) in *.
+  assert (Hrr : rv (fst st) = c) by (rewrite H1, !rv_rev; apply rev_involutive).
+  destruct p as [n|off d]; unfold apply_pop_r.
+  - rewrite Hrr. split; reflexivity.
+  - rewrite H2. destruct (N.eqb_spec off (nlen c)) as [->|Hne]; cbn [fst snd].
+    + cbn [apply_pop]. rewrite write_at_end, H1, nlen_app. split; [|reflexivity].
+      rewrite !rv_rev, rev_append_rev, rev_app_distr. reflexivity.
+    + rewrite Hrr. split; reflexivity.
+Qed.
+
+Lemma f_cur_spec_eq f : f_cur f = f_cur_spec f.
+Proof.
+  unfold f_cur, f_cur_spec. destruct (f_pend f) as [|p ps] eqn:E; [reflexivity|].
+  destruct (fold_r_inv (p :: ps) (f_dur f)) as [H1 _]. rewrite H1, !rv_rev. apply rev_involutive.
+Qed.
+
+Lemma f_cur_synced f : f_pend f = [] -> f_cur f = f_dur f.
+Proof. unfold f_cur. now intros ->. Qed.
+
+(** ** Projections of the state updates *)
+
+Lemma file_of_set_file s i f j :
+  file_of (set_file s i f) j = if j =? i then f else file_of s j.
+Proof. unfold file_of, set_file; cbn. rewrite aget_aset. destruct (j =? i); reflexivity. Qed.
+
+Lemma file_of_add_pend s i p j :
+  file_of (add_pend s i p) j =
+  if j =? i then {| f_dur := f_dur (file_of s i); f_pend := p :: f_pend (file_of s i) |} else file_of s j.
+Proof. unfold add_pend. apply file_of_set_file. Qed.
+
+(** ** Soundness of the checker *)
+
+Definition dst_clean (s : fs) (dst : path) : Prop :=
+  forall d i, In d (all_dirs s) -> aget d dst = Some i -> f_pend (file_of s i) = [].
+
+Definition views_in (s : fs) (dst : path) (vs : list (option data)) : Prop :=
+  forall d, In d (all_dirs s) -> In (view d s dst) vs.
+
+Definition inv (s : fs) (dst : path) (vs : list (option data)) : Prop :=
+  dst_clean s dst /\ views_in s dst vs.
+
+(** State after boot/recovery as far as [dst] is concerned: no older
+    directory, and the file at [dst] (if any) fully durable. *)
+Definition quiescent (s : fs) (dst : path) : Prop :=
+  dir_old s = [] /\ forall i, aget (dir_cur s) dst = Some i -> f_pend (file_of s i) = [].
+
+Lemma ever_at_spec s dst i :
+  ever_at s dst i = true <-> exists d, In d (all_dirs s) /\ aget d dst = Some i.
+Proof.
+  unfold ever_at. rewrite existsb_exists. split; intros (d & Hd & H); exists d; split; auto.
+  - destruct (aget d dst) as [j|]; [|discriminate]. apply N.eqb_eq in H. now subst.
+  - rewrite H. apply N.eqb_refl.
+Qed.
+
+Lemma inv_now s dst vs v :
+  inv s dst vs -> In v (live_view s dst :: crash_views s dst) -> In v vs.
+Proof.
+  intros [Hc Hv] [<-|Hin].
+  - apply Hv. left. reflexivity.
+  - unfold crash_views in Hin. apply in_flat_map in Hin. destruct Hin as (d & Hd & Hin).
+    specialize (Hv d Hd). unfold view in Hv.
+    destruct (aget d dst) as [i|] eqn:E.
+    + specialize (Hc d i Hd E). unfold crash_contents in Hin. rewrite Hc in Hin. cbn in Hin.
+      rewrite (f_cur_synced _ Hc) in Hv. destruct Hin as [<-|[]]. exact Hv.
+    + destruct Hin as [<-|[]]. exact Hv.
+Qed.
+
+Lemma inv_weaken s dst vs vs' : inv s dst vs -> incl vs vs' -> inv s dst vs'.
+Proof. intros [Hc Hv] Hi. split; auto. intros d Hd. apply Hi, Hv, Hd. Qed.
+
+(** (a) the directories stay, files that [dst] ever named keep their content *)
+Lemma inv_files s s' dst vs :
+  inv s dst vs ->
+  all_dirs s' = all_dirs s ->
+  (forall i, ever_at s dst i = true -> f_pend (file_of s i) = [] ->
+             f_pend (file_of s' i) = [] /\ f_cur (file_of s' i) = f_cur (file_of s i)) ->
+  inv s' dst vs.
+Proof.
+  intros [Hc Hv] Hd Hf. split.
+  - intros d i Hin E. rewrite Hd in Hin.
+    apply Hf; [apply ever_at_spec; eauto | eapply Hc; eauto].
+  - intros d Hin. rewrite Hd in Hin. specialize (Hv d Hin). unfold view in *.
+    destruct (aget d dst) as [i|] eqn:E; [|exact Hv].
+    destruct (Hf i) as [_ ->]; [apply ever_at_spec; eauto | eapply Hc; eauto | exact Hv].
+Qed.
+
+(** (b) a new directory is pushed, files stay *)
+Lemma inv_dir_same s nd dst vs :
+  inv s dst vs -> aget nd dst = aget (dir_cur s) dst -> inv (set_dir s nd) dst vs.
+Proof.
+  intros [Hc Hv] E. split.
+  - intros d i Hin Hi. destruct Hin as [Hin|Hin].
+    + cbn in Hin. subst d. rewrite E in Hi. apply (Hc (dir_cur s) i); [left; reflexivity|exact Hi].
+    + apply (Hc d i Hin Hi).
+  - intros d Hin. destruct Hin as [Hin|Hin].
+    + cbn in Hin. subst d. unfold view. rewrite E. apply (Hv (dir_cur s)). left; reflexivity.
+    + apply (Hv d Hin).
+Qed.
+
+Lemma inv_dir_publish s nd dst vs i :
+  inv s dst vs -> aget nd dst = Some i -> f_pend (file_of s i) = [] ->
+  inv (set_dir s nd) dst (vs ++ [Some (f_cur (file_of s i))]).
+Proof.
+  intros [Hc Hv] E Hp. split.
+  - intros d j Hin Hj. destruct Hin as [Hin|Hin].
+    + cbn in Hin. subst d. rewrite E in Hj. injection Hj as <-. exact Hp.
+    + apply (Hc d j Hin Hj).
+  - intros d Hin. apply in_or_app. destruct Hin as [Hin|Hin].
+    + cbn in Hin. subst d. right. unfold view. rewrite E. left. reflexivity.
+    + left. apply (Hv d Hin).
+Qed.
+
+(** descriptor-table updates are invisible to the invariant *)
+Lemma inv_set_fd s fd e dst vs : inv s dst vs -> inv (set_fd s fd e) dst vs.
+Proof. intros H. apply (inv_files s); auto. Qed.
+
+Lemma inv_del_fd s fd dst vs : inv s dst vs -> inv (del_fd s fd) dst vs.
+Proof. intros H. apply (inv_files s); auto. Qed.
+
+(** a modification of a file that [dst] never named *)
+Lemma inv_add_pend s i p dst vs :
+  inv s dst vs -> ever_at s dst i = false -> inv (add_pend s i p) dst vs.
+Proof.
+  intros H Hn. apply (inv_files s); auto.
+  intros j Hj Hp. rewrite file_of_add_pend.
+  destruct (N.eqb_spec j i) as [->|]; [congruence|auto].
+Qed.
+
+Lemma step_inv s o dst vs :
+  inv s dst vs -> step_ok dst s o = true -> inv (step s o) dst (vs ++ published s o dst).
+Proof.
+  intros H Hok.
+  assert (Hnil : forall s', inv s' dst vs -> inv s' dst (vs ++ [])) by (intros; now rewrite app_nil_r).
+  destruct o as [fd p fl|fd d|fd off d|fd|fd|a b|p|fd n|p n]; cbn [step published step_ok] in *.
+  - (* Open *)
+    apply Hnil. destruct (aget (dir_cur s) p) as [i|] eqn:E.
+    + destruct (o_creat fl && o_excl fl); [exact H|].
+      apply inv_set_fd. destruct (o_trunc fl) eqn:Et; [|exact H].
+      apply inv_add_pend; [exact H|].
+      destruct (ever_at s dst i); [|reflexivity].
+      rewrite orb_true_r in Hok. discriminate.
+    + destruct (o_creat fl) eqn:Ec; [|exact H].
+      apply inv_set_fd.
+      match goal with |- inv ?s' _ _ => apply (inv_files (set_dir s (aset (dir_cur s) p (next_ino s))) s') end;
+        [|reflexivity|auto].
+      apply inv_dir_same; [exact H|]. rewrite aget_aset.
+      destruct (N.eqb_spec dst p) as [->|]; [|reflexivity].
+      rewrite N.eqb_refl in Hok. discriminate.
+  - (* Write *)
+    apply Hnil. unfold fd_target_ok in Hok. destruct (aget (fds s) fd) as [e|]; [|exact H].
+    destruct (fd_wr e); [|exact H]. apply inv_set_fd, inv_add_pend; [exact H|].
+    now destruct (ever_at s dst (fd_ino e)).
+  - (* PWriteAt *)
+    apply Hnil. unfold fd_target_ok in Hok. destruct (aget (fds s) fd) as [e|]; [|exact H].
+    destruct (fd_wr e); [|exact H]. apply inv_add_pend; [exact H|].
+    now destruct (ever_at s dst (fd_ino e)).
+  - (* Fsync *)
+    apply Hnil. destruct (aget (fds s) fd) as [e|]; [|exact H].
+    apply (inv_files s); auto. intros j Hj Hp. rewrite file_of_set_file.
+    destruct (N.eqb_spec j (fd_ino e)) as [->|]; [|auto]. cbn.
+    split; [reflexivity|]. rewrite (f_cur_synced (file_of s (fd_ino e)) Hp).
+    unfold f_cur. reflexivity.
+  - (* Close *)
+    apply Hnil, inv_del_fd, H.
+  - (* Rename *)
+    apply andb_prop in Hok. destruct Hok as [Ha Hb]. apply negb_true_iff, N.eqb_neq in Ha.
+    destruct (aget (dir_cur s) a) as [i|] eqn:E.
+    + destruct (N.eqb_spec b dst) as [->|Hne].
+      * unfold live_view, view. rewrite E. apply inv_dir_publish; [exact H| |].
+        -- rewrite aget_aset, N.eqb_refl. reflexivity.
+        -- unfold synced in Hb. now destruct (f_pend (file_of s i)).
+      * apply Hnil, inv_dir_same; [exact H|]. rewrite aget_aset, aget_adel.
+        destruct (N.eqb_spec dst b); [congruence|]. destruct (N.eqb_spec dst a); [congruence|reflexivity].
+    + destruct (b =? dst); apply Hnil, H.
+  - (* Unlink *)
+    apply Hnil. apply negb_true_iff, N.eqb_neq in Hok.
+    destruct (aget (dir_cur s) p) as [i|]; [|exact H].
+    apply inv_dir_same; [exact H|]. rewrite aget_adel.
+    destruct (N.eqb_spec dst p); [congruence|reflexivity].
+  - (* Ftruncate *)
+    apply Hnil. unfold fd_target_ok in Hok. destruct (aget (fds s) fd) as [e|]; [|exact H].
+    destruct (fd_wr e); [|exact H]. apply inv_add_pend; [exact H|].
+    now destruct (ever_at s dst (fd_ino e)).
+  - (* TruncatePath *)
+    apply Hnil. destruct (aget (dir_cur s) p) as [i|]; [|exact H].
+    apply inv_add_pend; [exact H|]. now destruct (ever_at s dst i).
+Qed.
+
+Lemma trace_inv t : forall s dst vs,
+  inv s dst vs -> trace_safe dst s t = true ->
+  forall v, In v (visible_states s t dst) -> In v (vs ++ versions s t dst).
+Proof.
+  induction t as [|o t IH]; intros s dst vs H Hs v Hv; cbn [visible_states versions trace_safe] in *.
+  - rewrite app_nil_r in *. eapply inv_now; eauto.
+  - apply andb_prop in Hs. destruct Hs as [Ho Hs].
+    apply in_app_or in Hv. destruct Hv as [Hv|Hv].
+    + apply in_or_app. left. eapply inv_now; eauto.
+    + rewrite app_assoc. eapply IH; [apply step_inv; eauto|exact Hs|exact Hv].
+Qed.
+
+Lemma quiescent_inv s dst : quiescent s dst -> inv s dst [live_view s dst].
+Proof.
+  intros [Ho Hc]. split.
+  - intros d i Hd E. unfold all_dirs in Hd. rewrite Ho in Hd. destruct Hd as [<-|[]]. auto.
+  - intros d Hd. unfold all_dirs in Hd. rewrite Ho in Hd. destruct Hd as [<-|[]]. left. reflexivity.
+Qed.
+
+(** The key theorem: whatever trace the checker accepts never shows, at any
+    instant or after a crash at any prefix, anything but a complete published
+    version at [dst]. *)
+Theorem checker_sound dst s t :
+  quiescent s dst -> trace_safe dst s t = true ->
+  forall v, In v (visible_states s t dst) -> In v (all_versions s t dst).
+Proof.
+  intros Hq Hs v Hv. unfold all_versions.
+  change (In v ([live_view s dst] ++ versions s t dst)).
+  eapply trace_inv; eauto using quiescent_inv.
+Qed.
+
+(** The boot states built for the recorded traces are quiescent. *)
+Lemma boot_files_synced ents : forall k i f,
+  aget (boot_files ents k) i = Some f -> f_pend f = [].
+Proof.
+  induction ents as [|[p c] r IH]; intros k i f; cbn; [discriminate|].
+  rewrite aget_aset. destruct (i =? k); [intros [= <-]; reflexivity|apply IH].
+Qed.
+
+Lemma boot_quiescent ents dst : quiescent (boot ents) dst.
+Proof.
+  split; [reflexivity|]. intros i _. unfold file_of. cbn [files boot].
+  destruct (aget (boot_files ents 1) i) eqn:E; [eapply boot_files_synced; eauto|reflexivity].
+Qed.
+
+(** ** Splitting traces *)
+
+Lemma run_app s t1 t2 : run s (t1 ++ t2) = run (run s t1) t2.
+Proof. unfold run. apply fold_left_app. Qed.
+
+Lemma trace_safe_app dst t1 : forall s t2,
+  trace_safe dst s (t1 ++ t2) = trace_safe dst s t1 && trace_safe dst (run s t1) t2.
+Proof.
+  induction t1 as [|o t1 IH]; intros s t2; cbn; [reflexivity|].
+  rewrite IH, andb_assoc. reflexivity.
+Qed.
+
+Lemma versions_app dst t1 : forall s t2,
+  versions s (t1 ++ t2) dst = versions s t1 dst ++ versions (run s t1) t2 dst.
+Proof.
+  induction t1 as [|o t1 IH]; intros s t2; cbn; [reflexivity|].
+  rewrite IH, app_assoc. reflexivity.
+Qed.
+
+(** ** The write-to-temp / fsync / close / rename shape, for every chunking *)
+
+(** What holds while the temporary file [tmp] (inode [n], descriptor [fd]) is
+    being filled: [acc] has been written so far. *)
+Definition filling (s : fs) (dst tmp : path) (fd n : N) (acc : data) : Prop :=
+  aget (fds s) fd = Some {| fd_ino := n; fd_off := nlen acc; fd_wr := true; fd_app := false |} /\
+  f_cur_spec (file_of s n) = acc /\
+  ever_at s dst n = false /\
+  aget (dir_cur s) tmp = Some n.
+
+Lemma filling_writes dst tmp fd n chunks : forall s acc,
+  filling s dst tmp fd n acc ->
+  let t := map (Write fd) chunks in
+  trace_safe dst s t = true /\ versions s t dst = [] /\
+  filling (run s t) dst tmp fd n (acc ++ concat chunks).
+Proof.
+  induction chunks as [|c r IH]; intros s acc H; cbn zeta; cbn [map concat].
+  - rewrite app_nil_r. cbn. auto.
+  - destruct H as (Hfd & Hcur & Hev & Hdir).
+    assert (Hstep : filling (step s (Write fd c)) dst tmp fd n (acc ++ c)).
+    { unfold filling. cbn [step]. rewrite Hfd. cbn [fd_wr fd_app fd_off fd_ino].
+      repeat split.
+      - cbn [fds set_fd]. rewrite aget_aset, N.eqb_refl, nlen_app. reflexivity.
+      - change (file_of (set_fd ?a ?b ?c) n) with (file_of a n).
+        rewrite file_of_add_pend, N.eqb_refl. unfold f_cur_spec in *. cbn [f_pend f_dur fold_right].
+        rewrite Hcur. cbn [apply_pop]. apply write_at_end.
+      - exact Hev.
+      - exact Hdir. }
+    destruct (IH _ _ Hstep) as (Hs & Hv & Hf).
+    cbn [trace_safe versions published run fold_left step_ok]. unfold fd_target_ok.
+    rewrite Hfd. cbn [fd_ino]. rewrite Hev. cbn [negb andb app].
+    rewrite <- app_assoc in Hf. auto.
+Qed.
+
+(** The temporary name is fresh, lives beside [dst] (same flat name space =
+    same file system) and gets a fresh inode. *)
+Definition fresh_tmp (s : fs) (dst tmp : path) : Prop :=
+  tmp <> dst /\ aget (dir_cur s) tmp = None /\
+  ever_at s dst (next_ino s) = false /\ aget (files s) (next_ino s) = None.
+
+Lemma atomic_shape_checked s dst tmp fd chunks :
+  fresh_tmp s dst tmp ->
+  let t := atomic_shape fd tmp dst chunks in
+  trace_safe dst s t = true /\ versions s t dst = [Some (concat chunks)].
+Proof.
+  intros (Hne & Habs & Hev & Hfile). cbn zeta. unfold atomic_shape.
+  set (n := next_ino s) in *.
+  cbn [trace_safe versions published step_ok]. rewrite Habs.
+  cbn [fl_tmp o_creat]. apply N.eqb_neq in Hne. rewrite Hne. cbn [andb negb app].
+  set (s1 := step s (Open fd tmp fl_tmp)).
+  assert (H1 : filling s1 dst tmp fd n []).
+  { unfold s1, filling. cbn [step]. rewrite Habs. cbn [fl_tmp o_creat o_wr o_app].
+    repeat split.
+    - cbn [fds set_fd]. rewrite aget_aset, N.eqb_refl. reflexivity.
+    - unfold f_cur_spec, file_of. cbn [files set_fd set_dir]. fold n. rewrite Hfile. reflexivity.
+    - unfold ever_at in *. cbn [all_dirs dir_cur dir_old set_fd set_dir existsb] in *.
+      rewrite aget_aset. rewrite N.eqb_sym, Hne.
+      destruct (match aget (dir_cur s) dst with Some j => j =? n | None => false end); [discriminate|exact Hev].
+    - cbn [dir_cur set_fd set_dir]. rewrite aget_aset, N.eqb_refl. reflexivity. }
+  rewrite trace_safe_app, versions_app.
+  destruct (filling_writes dst tmp fd n chunks s1 [] H1) as (Hs & Hv & Hf).
+  rewrite Hs, Hv. cbn [app andb].
+  set (s2 := run s1 (map (Write fd) chunks)) in *.
+  destruct Hf as (Hfd & Hcur & Hev2 & Hdir). cbn [app] in Hcur.
+  cbn [trace_safe versions published step_ok step andb app].
+  rewrite Hfd. cbn [fd_ino].
+  (* after fsync and close the temporary file is durable and still named tmp *)
+  set (s3 := set_file s2 n {| f_dur := f_cur (file_of s2 n); f_pend := [] |}).
+  assert (Hd3 : aget (dir_cur (del_fd s3 fd)) tmp = Some n) by exact Hdir.
+  rewrite Hd3, N.eqb_refl. rewrite N.eqb_sym in Hne.
+  replace (tmp =? dst) with false by (symmetry; rewrite N.eqb_sym; exact Hne).
+  cbn [negb andb].
+  assert (Hf3 : file_of (del_fd s3 fd) n = {| f_dur := f_cur (file_of s2 n); f_pend := [] |}).
+  { change (file_of (del_fd s3 fd) n) with (file_of s3 n). unfold s3.
+    rewrite file_of_set_file, N.eqb_refl. reflexivity. }
+  unfold synced, live_view, view. rewrite Hd3, Hf3. cbn [f_pend].
+  split; [reflexivity|]. unfold f_cur at 1. cbn [f_pend f_dur].
+  rewrite f_cur_spec_eq, Hcur. reflexivity.
+Qed.
+
+Theorem atomic_shape_safe s dst tmp fd chunks :
+  quiescent s dst -> fresh_tmp s dst tmp ->
+  forall v, In v (visible_states s (atomic_shape fd tmp dst chunks) dst) ->
+            v = live_view s dst \/ v = Some (concat chunks).
+Proof.
+  intros Hq Hf v Hv.
+  destruct (atomic_shape_checked s dst tmp fd chunks Hf) as [Hs Hver].
+  apply (checker_sound dst s _ Hq Hs) in Hv. unfold all_versions in Hv. rewrite Hver in Hv.
+  destruct Hv as [<-|[<-|[]]]; auto.
+Qed.
+
+(** Premises satisfiable, and the conclusion is tight: both versions occur. *)
+Example atomic_shape_premises :
+  let s := boot [(1, [10; 11; 12])] in
+  quiescent s 1 /\ fresh_tmp s 1 2 /\
+  live_view s 1 = Some [10; 11; 12] /\
+  let vs := visible_states s (atomic_shape 7 2 1 [[20]; []; [21; 22]]) 1 in
+  In (Some [10; 11; 12]) vs /\ In (Some [20; 21; 22]) vs.
+Proof.
+  cbn zeta. split; [apply boot_quiescent|].
+  split. { unfold fresh_tmp. repeat split; try (vm_compute; reflexivity). discriminate. }
+  split; [vm_compute; reflexivity|]. vm_compute. tauto.
+Qed.
+
+(** ** Non-vacuity: truncate-and-write in place is refuted *)
 Lemma truncate_write_unsafe :
   exists old new,
     let s := boot [(1, old)] in
     let t := inplace_shape 3 1 [new] in
+    quiescent s 1 /\
+    trace_safe 1 s t = false /\
+    exists v, In v (visible_states s t 1) /\ v <> Some old /\ v <> Some new.
+Proof.
+  exists [1;2;3], [4;5;6]. cbn zeta. split; [apply boot_quiescent|].
+  split; [vm_compute; reflexivity|].
+  exists (Some []). split; [vm_compute; tauto|]. split; discriminate.
+Qed.
+
+(** Dropping the fsync (or renaming before it) is refuted as well: after a
+    crash the new name can be durable while the data is not. *)
+Lemma rename_without_fsync_unsafe :
+  exists old new,
+    let s := boot [(1, old)] in
+    let t := [Open 3 2 fl_tmp; Write 3 new; Close 3; Rename 2 1] in
     trace_safe 1 s t = false /\
     exists v, In v (visible_states s t 1) /\ v <> Some old /\ v <> Some new.
 Proof.
   exists [1;2;3], [4;5;6]. cbn zeta. split; [vm_compute; reflexivity|].
-  exists (Some []). split; [vm_compute; tauto|]. split; discriminate.
+  exists (Some [4]). split; [vm_compute; tauto|]. split; discriminate.
 Qed.
+
+(** ** Temporary files do not pile up *)
+Theorem no_leftovers_sound keep s t :
+  no_leftovers keep s t = true ->
+  forall p, In p (created s t) -> aget (dir_cur (run s t)) p <> None -> In p keep.
+Proof.
+  unfold no_leftovers. rewrite forallb_forall. intros H p Hp Hn. specialize (H p Hp).
+  destruct (aget (dir_cur (run s t)) p); [|congruence].
+  apply existsb_exists in H. destruct H as (q & Hq & E). apply N.eqb_eq in E. now subst.
+Qed.
+
+(** Premises of [checker_sound] are satisfiable by a non-trivial trace: two
+    successive saves through differently named temporary files, with a failed
+    save in between that is cleaned up (close + unlink). *)
+Example checker_sound_premises :
+  let s := boot [(1, [1; 2])] in
+  let t := atomic_shape 5 2 1 [[3]; [4]] ++
+           [Open 5 3 fl_tmp; Write 5 [9]; Close 5; Unlink 3] ++
+           atomic_shape 6 4 1 [[5; 6; 7]] in
+  quiescent s 1 /\ trace_safe 1 s t = true /\ no_leftovers [1] s t = true /\
+  all_versions s t 1 = [Some [1; 2]; Some [3; 4]; Some [5; 6; 7]].
+Proof. cbn zeta. split; [apply boot_quiescent|]. vm_compute. auto. Qed.
